@@ -99,6 +99,18 @@ def func_spec(t):
   return params, bool(va), bool(kw), ty, ov
 
 
+def star_text(name, ty):
+  """pytype's printer writes `*args` (not `*args: Any`) when the element type is
+  Any, and the parser reads the bare form as plain `tuple`/`dict`: the
+  annotated-Any spelling is not part of the emitted dialect."""
+  return name if ty == "Any" else "%s: %s" % (name, ty)
+
+
+def param_text(name, ty):
+  """Likewise a parameter of type Any is printed without annotation."""
+  return name if ty == "Any" else "%s: %s" % (name, ty)
+
+
 def sig_text(params, va, kw, ty, ret):
   parts = []
   seen_slash = False
@@ -107,15 +119,15 @@ def sig_text(params, va, kw, ty, ret):
       if any(k == "POSONLY" for _, k, _ in params) and not seen_slash:
         parts.append("/")
         seen_slash = True
-      parts.append("*args: %s" % ty if va else "*")
-    parts.append("%s: %s%s" % (name, ty, " = ..." if opt else ""))
+      parts.append(star_text("*args", ty) if va else "*")
+    parts.append("%s%s" % (param_text(name, ty), " = ..." if opt else ""))
     if kind == "POSONLY" and (i + 1 == len(params) or params[i + 1][1] != "POSONLY"):
       parts.append("/")
       seen_slash = True
   if va and not any(p.startswith("*a") for p in parts):
-    parts.append("*args: %s" % ty)
+    parts.append(star_text("*args", ty))
   if kw:
-    parts.append("**kwargs: %s" % ty)
+    parts.append(star_text("**kwargs", ty))
   return "(%s) -> %s" % (", ".join(parts), ret)
 
 
@@ -201,11 +213,12 @@ def class_text(t):
   mname = MNAMES[conc(t[7], 4)] if mk == 0 else "m"
   if mk == 0:
     first = "self" if mname == "m" else "cls"
-    body.append("    def %s(%s, a: %s, *, k: %s = ...) -> %s: ..." % (mname, first, ty, ty2, ty))
+    body.append("    def %s(%s, %s, *, %s = ...) -> %s: ..." % (
+        mname, first, param_text("a", ty), param_text("k", ty2), ty))
   elif mk == 1:
-    body += ["    @staticmethod", "    def m(a: %s) -> %s: ..." % (ty, ty2)]
+    body += ["    @staticmethod", "    def m(%s) -> %s: ..." % (param_text("a", ty), ty2)]
   elif mk == 2:
-    body += ["    @classmethod", "    def m(cls, a: %s) -> %s: ..." % (ty, ty2)]
+    body += ["    @classmethod", "    def m(cls, %s) -> %s: ..." % (param_text("a", ty), ty2)]
   else:
     # the form pytype emits for properties (a `@property def` is not in the dialect)
     body.append("    m: Annotated[%s, 'property']" % ty)
@@ -327,6 +340,8 @@ def explain(fn, t):
   try:
     problems, ast0, t1 = roundtrip(text)
     out["emitted"] = t1
+    if fn == "h_class" and sorted(class_block_lines(text)) != sorted(class_block_lines(t1)):
+      problems.append("class C is re-printed with different lines than generated")
     out["problems"] = problems
   except Exception as e:  # pylint: disable=broad-except
     out["raised"] = "%s: %s" % (type(e).__name__, e)
